@@ -257,6 +257,7 @@ class Sched(object):
         if not self.final:
             self.final = True
             self.end_reason = reason
+            self.final_parked = [(t.tid, t.park, t.role, t.name) for t in self.threads if t.state == "blocked"]
             self.log.append((-1, "end", reason))
             self.done_sem.release()
 
@@ -378,8 +379,8 @@ class Sched(object):
         self.torn_down = True
 
     def parked(self):
-        """[(tid, park-tuple)] of threads blocked at the end (idle-final analysis)."""
-        return [(t.tid, t.park, t.role, t.name) for t in self.threads if t.state == "blocked"]
+        """[(tid, park-tuple, role, name)] of threads blocked when the scenario ended (idle-final analysis)."""
+        return list(getattr(self, "final_parked", []))
 
 
 def _where(e):
@@ -547,6 +548,13 @@ class QuietRLock(CRLock):
     preempt = False
 
 
+class _Waiter(object):
+    __slots__ = ("flag",)
+
+    def __init__(self):
+        self.flag = False
+
+
 class CCondition(object):
     """Condition variable over a controlled (R)Lock.  `quiet` ones belong to stdlib Futures: acquiring them is
     not a yield point (a stdlib Future method is one atomic step: assumption AF1)."""
@@ -573,18 +581,17 @@ class CCondition(object):
             raise Abort()
         if not self._lock._is_owned():
             raise RuntimeError("cannot wait on un-acquired lock")
-        w = [False]
+        w = _Waiter()
         self._waiters.append(w)
         st = self._lock._release_save()
         deadline = None
         if timeout is not None and timeout < UNTIMED:
             deadline = s.now + max(timeout, 0)
         try:
-            ok = s.block(lambda: w[0], deadline, ("cond", s.name_of(self, "C"), timeout if deadline is not None else None))
+            ok = s.block(lambda: w.flag, deadline, ("cond", s.name_of(self, "C"), timeout if deadline is not None else None))
         finally:
             if not s.aborting:
-                if w in self._waiters:
-                    self._waiters.remove(w)
+                self._waiters = [x for x in self._waiters if x is not w]
                 self._lock._acquire_restore(st)
         return ok
 
@@ -609,7 +616,7 @@ class CCondition(object):
         if not self._lock._is_owned():
             raise RuntimeError("cannot notify on un-acquired lock")
         for w in self._waiters[:n]:
-            w[0] = True
+            w.flag = True
         del self._waiters[:n]
 
     def notify_all(self):
